@@ -4,8 +4,9 @@
 # and appended to .cache/regress_results.txt
 cd /verif
 jobs=${1:-4}
-: > .cache/regress_results.txt
+[ -n "$REGRESS_IDS" ] || : > .cache/regress_results.txt
 for d in seeded/*/; do
+  case " ${REGRESS_IDS:-ALL} " in *" ALL "*) ;; *" $(basename $d | cut -d- -f1) "*) ;; *) continue;; esac
   name=$(basename $d); id=${name%%-*}
   while [ $(jobs -rp | wc -l) -ge $jobs ]; do sleep 2; done
   (
